@@ -1,9 +1,10 @@
 (* Extraction of the C13 model: ExtrOcamlBasic only, no Extract Constant. *)
 Require Import ExtrOcamlBasic.
-From SharkV Require Import ListAux C13Model C13Wfg C13Sweep3d C13Hssp C13Disp C13Dc C13ContribMd C13Contrib3d C13ContribNoref.
+From SharkV Require Import ListAux C13Model C13Wfg C13Sweep3d C13Hssp C13Disp C13Dc C13ContribMd C13Contrib3d C13ContribNoref C13Hoy.
 Extraction "c13_model.ml" dominance domb rank_list fast_nds hv_spec hv2d contrib2d_ref contrib2d_noref
   smallest_k largest_k contribs_spec best_subset_hv front_size sort_z
   wfg wfg_limit hv3d hssp2d pick hv_dispatch
   dc_nds nds_front
   contribs_md_inst smallest_kv largest_kv contribs3d
-  contribs_front contrib_front_smallest contrib_front_largest noref_front implicit_ref.
+  contribs_front contrib_front_smallest contrib_front_largest noref_front implicit_ref
+  hoy hoy_stream hoy_stream_trace hoy_stream_bounds median compute_trellis.
